@@ -95,6 +95,7 @@ func main() {
 	repo := flag.String("repo", "/repo", "repository root")
 	out := flag.String("out", "", "directory for generated Lean files")
 	js := flag.String("json", "", "JSON side file")
+	hdir := flag.String("harness", "", "directory of the Go harness (schema-dependent Go files are written there)")
 	flag.Parse()
 	c := &ctx{repo: *repo, out: *out, fset: tokenFileSetForPrint, names: map[string]int{}, side: map[string]interface{}{}}
 	// fixed small ids the hand-written Lean side refers to
@@ -110,6 +111,7 @@ func main() {
 		genDumper(c, sch)
 		genNull(c, sch)
 	}
+	genHarness(c, sch, *hdir)
 	genPools(c)
 	genVersionFacts(c)
 	genFacts(c, sch)
